@@ -207,11 +207,11 @@ func (n *Node) s(sb *strings.Builder) {
 	case KIdent:
 		w("(id ", n.Name, ")")
 	case KNum:
-		w("(num ", n.Text, ")")
+		w("(num ", jsstr.NumMeaning(n.Text), ")")
 	case KStr:
 		w("(str ", jsstr.Meaning(n.Text), ")")
 	case KTpl:
-		w("(tpl ", q(TplRaw(n.Text)), ")")
+		w("(tpl ", jsstr.TplMeaning(n.Text), ")")
 	case KBool:
 		w("(", n.Name, ")")
 	case KNull:
